@@ -72,6 +72,15 @@ func runC12(c *Ctx, idx int) {
 		pg := genPager(r, true)
 		i := strings.Index(pg.HTML, "<body>")
 		src = strings.Replace(src, "</body>", pg.HTML[i+6:len(pg.HTML)-len("</body></html>")]+"</body>", 1)
+		// metadata of all three kinds, with the OpenGraph prefix declared in
+		// varying ways (default, custom prefix=, xmlns:) from document to document
+		md := genMarkupDoc(r)
+		if b := strings.Index(src, "<body"); b >= 0 {
+			if e := strings.Index(src[b:], ">"); e >= 0 {
+				body := src[b+e+1 : strings.LastIndex(src, "</body>")]
+				src = strings.Replace(md.All, "</body>", body+"</body>", 1)
+			}
+		}
 		return src, pg
 	}
 	const callsPer = 4
